@@ -16,15 +16,16 @@
        handler's name, topics and Pub/Sub type names.
 
    Events: reset(handlers), emit(m, sub, topic, sp), hstart(m, h, ctx),
-   hself, hend, pcall(m, pub, topic, outs, intact, sample, octx), pret,
+   hself, hmw(m, h), hend, pcall(m, pub, topic, outs, intact, sample, octx), pret,
    settled, quiesce  (see RouterHandlerTrace.tla for the common ones).        *)
 EXTENDS RouterHandler, TraceBase
 
 VARIABLES H,     \* H[name] = [sub, stopic, pub, ptopic, haspub, subname, pubname]
           own,   \* own[sp] = handler owning subscription sp (learned)
           on,    \* on[m]  = [sub, topic, sp]
-          hof    \* hof[m] = handler that was invoked for m
-tvars == <<rvars, H, own, on, hof, l>>
+          hof,   \* hof[m] = handler that was invoked for m
+          mwd    \* messages that went through a handler-level middleware (of their own handler)
+tvars == <<rvars, H, own, on, hof, mwd, l>>
 
 Ctx(h) == <<h, H[h].stopic, H[h].ptopic, H[h].subname, H[h].pubname>>
 
@@ -34,11 +35,11 @@ TInit == /\ hp = [m \in Msgs |-> FALSE]
          /\ res = [m \in Msgs |-> NoRes]
          /\ pubres = [m \in Msgs |-> "none"]
          /\ calls = [m \in Msgs |-> 0]
-         /\ LInit /\ H = << >> /\ own = << >> /\ on = << >> /\ hof = << >>
+         /\ LInit /\ H = << >> /\ own = << >> /\ on = << >> /\ hof = << >> /\ mwd = {}
 
 TReset == /\ Is("reset")
           /\ H' = Ev.handlers
-          /\ own' = << >> /\ on' = << >> /\ hof' = << >>
+          /\ own' = << >> /\ on' = << >> /\ hof' = << >> /\ mwd' = {}
           /\ hp' = [m \in Msgs |-> FALSE]
           /\ ph' = [m \in Msgs |-> "idle"]
           /\ settle' = [m \in Msgs |-> "none"]
@@ -47,11 +48,11 @@ TReset == /\ Is("reset")
           /\ calls' = [m \in Msgs |-> 0]
           /\ Adv
 KeepCfg == UNCHANGED <<H, hp>>
-KeepRoute == UNCHANGED <<own, on, hof>>
+KeepRoute == UNCHANGED <<own, on, hof, mwd>>
 
 TEmit   == /\ Is("emit") /\ Emit(Ev.m)
            /\ on' = (Ev.m :> [sub |-> Ev.sub, topic |-> Ev.topic, sp |-> Ev.sp]) @@ on
-           /\ UNCHANGED <<own, hof>> /\ KeepCfg /\ Adv
+           /\ UNCHANGED <<own, hof, mwd>> /\ KeepCfg /\ Adv
 
 THStart == /\ Is("hstart") /\ HStart(Ev.m)
            /\ Ev.h \in DOMAIN H
@@ -63,24 +64,28 @@ THStart == /\ Is("hstart") /\ HStart(Ev.m)
            /\ Ev.ctx = Ctx(Ev.h)
            /\ hof' = (Ev.m :> Ev.h) @@ hof
            /\ hp' = [hp EXCEPT ![Ev.m] = H[Ev.h].haspub]
-           /\ UNCHANGED <<H, on>> /\ Adv
+           /\ UNCHANGED <<H, on, mwd>> /\ Adv
 
 THSelf  == Is("hself")  /\ HSelf(Ev.m, Ev.kind) /\ KeepCfg /\ KeepRoute /\ Adv
-THEnd   == Is("hend")   /\ HEnd(Ev.m, [end |-> Ev.end, outs |-> Ev.outs]) /\ KeepCfg /\ KeepRoute /\ Adv
+\* the middleware added to handler h (Handler.AddMiddleware) wraps h's function and no other: it ran (once) for
+\* every message of h before the router-level recorder sees the result, and for no message of another handler
+THMw    == /\ Is("hmw") /\ ph[Ev.m] = "handling" /\ Ev.m \in DOMAIN hof /\ hof[Ev.m] = Ev.h /\ Ev.m \notin mwd
+           /\ mwd' = mwd \cup {Ev.m} /\ UNCHANGED <<rvars, H, own, on, hof>> /\ Adv
+THEnd   == Is("hend")   /\ Ev.m \in mwd /\ HEnd(Ev.m, [end |-> Ev.end, outs |-> Ev.outs]) /\ KeepCfg /\ KeepRoute /\ Adv
 TPCall  == /\ Is("pcall") /\ Ev.intact /\ PCall(Ev.m, Ev.outs, Ev.sample)
            /\ Ev.pub = H[hof[Ev.m]].pub /\ Ev.topic = H[hof[Ev.m]].ptopic
            /\ \A i \in 1..Len(Ev.octx) : Ev.octx[i] = Ctx(hof[Ev.m])
            /\ KeepCfg /\ KeepRoute /\ Adv
 TPRet   == Is("pret")   /\ PRet(Ev.m, Ev.outcome, Ev.sample) /\ KeepCfg /\ KeepRoute /\ Adv
 TSettled == /\ Is("settled") /\ settle[Ev.m] = Ev.kind
-            /\ UNCHANGED <<rvars, H, own, on, hof>> /\ Adv
+            /\ UNCHANGED <<rvars, H, own, on, hof, mwd>> /\ Adv
 TQuiesce == /\ Is("quiesce")
             /\ \A m \in Msgs : ph[m] \in {"idle", "done"}
             /\ \A i \in 1..Len(Ev.final) : settle[Ev.final[i][1]] = Ev.final[i][2]
-            /\ UNCHANGED <<rvars, H, own, on, hof>> /\ Adv
+            /\ UNCHANGED <<rvars, H, own, on, hof, mwd>> /\ Adv
 TSilent == (\E m \in Msgs : Settle(m)) /\ KeepCfg /\ KeepRoute /\ UNCHANGED l
 
-TNext == TReset \/ TEmit \/ THStart \/ THSelf \/ THEnd \/ TPCall \/ TPRet \/ TSettled \/ TQuiesce \/ TSilent
+TNext == TReset \/ TEmit \/ THStart \/ THSelf \/ THMw \/ THEnd \/ TPCall \/ TPRet \/ TSettled \/ TQuiesce \/ TSilent
 TSpec == TInit /\ [][TNext]_tvars
 
 \* routing invariant: ownership is injective
